@@ -9,8 +9,16 @@ def run(spec):
     loader.install(rewrite=False)
     mod = importlib.import_module(spec["module"])
     from vf.bmc import replay
-    return replay.run_replay(mod.make, spec["cfg"], spec["schedule"], spec.get("params") or {},
-                             spec["query"] if spec["query"] in ("deadlock", "witness") else "assert", faults=spec.get("faults"))
+    out = replay.run_replay(mod.make, spec["cfg"], spec["schedule"], spec.get("params") or {},
+                            spec["query"] if spec["query"] in ("deadlock", "witness", "prefix") else "assert", faults=spec.get("faults"))
+    if spec.get("extra_module") and spec["query"] == "assert":
+        # final-state invariants that are part of the assert query but not v_assert statements of the scenario
+        bad = importlib.import_module(spec["extra_module"]).replay_extra(out)
+        if bad:
+            out["asserts"] = list(out.get("asserts") or []) + bad
+            out["reproduced"] = True
+            out["observed"] = "final-state invariant violated on the real code: %s (monitors %s)" % (bad, out.get("monitors"))
+    return out
 
 
 def main(spec=None):
